@@ -55,7 +55,7 @@ inductive Rune where
   | number (n : Nat)
   deriving Repr, DecidableEq, Inhabited
 
-def parseRune (s : List Char) : Outcome Rune :=
+def parseRuneWith (fixed : Bool) (s : List Char) : Outcome Rune :=
   if s.contains ':' then
     match Sub.runeIdFromStr s with
     | .ok (b, t) => .ok (.id b t)
@@ -66,9 +66,11 @@ def parseRune (s : List Char) : Outcome Rune :=
     | .ok n => .ok (.number n)
     | .error e => .err ("number:" ++ e.toString)
   else
-    match Sub.spacedRuneFromStr s with
+    match Sub.spacedRuneFromStrWith fixed s with
     | .ok (r, sp) => .ok (.spaced r sp)
     | .err e => .err e
     | .panic p => .panic p
+
+def parseRune (s : List Char) : Outcome Rune := parseRuneWith Ord.Generated.SpacedRuneFix.shlFixed s
 
 end Ord.Text.Query
